@@ -522,7 +522,7 @@ pub fn run(run: &Run) {
         filter_text: print_filter(&renv, &opt_filter, None),
         filter_expr: opt_filter,
     };
-    let nr = run.opts.size(3_000, 150_000);
+    let nr = run.opts.size(30_000, 1_500_000);
     run.parallel("random", nr, |i, l| {
         let mut r = Rng::derive(seed, "c08-r", i);
         let len = r.range(20, 80);
@@ -576,7 +576,7 @@ pub fn run(run: &Run) {
     });
 
     // ---- constructors only build homogeneous containers; typed wrappers
-    let nc = run.opts.size(3_000, 200_000);
+    let nc = run.opts.size(30_000, 2_000_000);
     run.parallel("constructors", nc, |i, l| {
         let mut r = Rng::derive(seed, "c08-c", i);
         let decl = gen_type(&mut r, 2);
@@ -626,7 +626,7 @@ pub fn run(run: &Run) {
     });
 
     // typed wrappers (the `transmute`-based accessors): build, read back, store
-    let nt = run.opts.size(500, 20_000);
+    let nt = run.opts.size(5_000, 200_000);
     run.parallel("typed", nt, |i, l| {
         let mut r = Rng::derive(seed, "c08-t", i);
         l.evals += 1;
